@@ -275,23 +275,6 @@ Proof.
   destruct (sf_fun s); simpl; destruct (nth_error fs (sf_id s)) as [fr|]; try destruct (assoc x fr); auto.
 Qed.
 
-Definition segF (cl : option (list scopeF)) : list nat :=
-  match cl with Some l => map sf_id (until_funF l) | None => [] end.
-
-(* every captured stack of the parent chain, callExprEval functions included *)
-Fixpoint fullp (f : fnF) : list nat :=
-  match f with GMain _ => [] | GSub _ cl par => segF cl ++ fullp par end.
-(* the captured stacks of the closures only: what the core machine consults *)
-Fixpoint corep (f : fnF) : list nat :=
-  match f with
-  | GMain _ => []
-  | GSub true _ par => corep par
-  | GSub false cl par => segF cl ++ corep par
-  end.
-
-Fixpoint tmpl_of (l : list scopeF) : list nat :=
-  match l with [] => [] | s :: r => if sf_fun s then sf_tmpl s else tmpl_of r end.
-
 Lemma look_parentsF_chain : forall fs f x, look_parentsF fs f x = lookup_chain fs (fullp f) x.
 Proof.
   induction f as [cl|ps cl par IH]; intros x; simpl; [reflexivity|].
@@ -488,3 +471,252 @@ Qed.
    and finishing an argument restore an earlier (live stack, current function) pair, for which cov held *)
 Theorem cov_restore : forall st0 st1, cov st0 -> liveF st1 = liveF st0 -> curF st1 = curF st0 -> cov st1.
 Proof. intros st0 st1 H Hl Hc. unfold cov in *. rewrite Hl, Hc. exact H. Qed.
+
+(* ---- the decidable form of cov used by the replay ---- *)
+Lemma inclb_sound : forall a b, inclb a b = true -> incl a b.
+Proof.
+  unfold inclb. intros a b H i Hi. rewrite forallb_forall in H. specialize (H i Hi).
+  apply existsb_exists in H. destruct H as (j & Hj & E). apply Nat.eqb_eq in E. subst. assumption.
+Qed.
+
+Lemma coveredb_sound : forall f a, coveredb a f = true -> covered a f.
+Proof.
+  induction f as [cl|ps cl par IH]; intros a H; simpl in *; [exact I|]. destruct ps.
+  - apply andb_prop in H. destruct H as [H1 H2]. split; [apply inclb_sound; assumption|apply IH; assumption].
+  - apply IH. assumption.
+Qed.
+
+Theorem covb_sound : forall st, covb st = true -> cov st.
+Proof.
+  intros st H. unfold covb in H. apply andb_prop in H. destruct H as [H1 H2]. split.
+  - destruct (curF st); [apply inclb_sound; assumption|apply coveredb_sound; assumption].
+  - apply inclb_sound. assumption.
+Qed.
+
+Theorem call_premise_sound : forall tmpl f, call_premise_b tmpl f = true -> incl tmpl (corep f).
+Proof. intros. apply inclb_sound. assumption. Qed.
+
+(* ================================================================= 6. the faithful layer over event sequences *)
+(* The local cov lemmas assembled: the events of section 4, on the faithful machine.  The frames are the
+   jframes of section 4 (static chain, base chain, call flag, depth), so that one run carries both
+   invariants: inv on the erased state (section 4) and cov on the faithful state.  The pool is the set of
+   closures created so far (CreateClosureInstr); only those are called.  The one premise that is not
+   derived is  incl tmpl (corep f)  at a function entry: the template of the function scope captured
+   nothing outside the chain of the closure being entered.  It is a fact about the generator (templates
+   are created at compile time in the scope in which the closure is later created); the replay tests it
+   at every function entry of every run (call_premise_b). *)
+
+Definition covLC (l : list scopeF) (c : fnF) : Prop := cov (mkIF l c []).
+
+Lemma cov_covLC : forall st, cov st -> covLC (liveF st) (curF st).
+Proof. intros st H. unfold covLC. eapply cov_restore; [exact H|reflexivity|reflexivity]. Qed.
+Lemma covLC_cov : forall st, covLC (liveF st) (curF st) -> cov st.
+Proof. intros st H. unfold covLC in H. eapply cov_restore; [exact H|reflexivity|reflexivity]. Qed.
+
+(* a function scope of a callable closure: whatever lies below it on the live stack *)
+Lemma covLC_func_scope : forall c id tmpl l, wf_clos c -> incl tmpl (corep c) ->
+  covLC (mkScopeF id true tmpl :: l) c.
+Proof.
+  intros c id tmpl l Hw Ht. destruct c as [cl|ps cl par]; [contradiction|]. destruct ps; [contradiction|].
+  unfold covLC, cov. simpl. split.
+  - apply (covered_mono par (segF cl)); [|exact Hw]. apply incl_tl. apply incl_refl.
+  - intros i Hi. right. apply Ht. exact Hi.
+Qed.
+
+Local Open Scope nat_scope.
+Definition callw (fr : jframe) : nat := if jf_call fr then 1 else 0.
+
+(* per frame: cov holds for the live stack with any number of the frame's own block scopes removed (that
+   is what RemoveScopeInstr, break and continue go back to); a call frame runs a callable closure *)
+Fixpoint cstack_ok (frs : list jframe) (lv : list scopeF) (c : fnF) (sv : list fnF) : Prop :=
+  match frs with
+  | [] => False
+  | fr :: rest =>
+    (forall k, k + callw fr <= jf_depth fr -> covLC (skipn k lv) c) /\
+    (jf_call fr = true -> wf_clos c /\ 1 <= jf_depth fr) /\
+    match rest with
+    | [] => sv = []
+    | _ :: _ => match sv with c2 :: sv' => cstack_ok rest (skipn (jf_depth fr) lv) c2 sv' | [] => False end
+    end
+  end.
+
+Definition invF (frs : list jframe) (pool : list fnF) (st : istateF) : Prop :=
+  cstack_ok frs (liveF st) (curF st) (savedF st) /\ Forall wf_clos pool.
+
+Lemma invF_cov : forall frs pool st, invF frs pool st -> cov st.
+Proof.
+  intros frs pool st [H _]. destruct frs as [|fr rest]; [contradiction|]. destruct H as (C & W & _).
+  apply covLC_cov. apply (C O). unfold callw. destruct (jf_call fr); [destruct (W eq_refl); lia|lia].
+Qed.
+
+Theorem invF_init : invF [mkJ [O] [] false O] [] init_istateF.
+Proof.
+  split; [|constructor]. simpl. split; [|split]; [|discriminate|reflexivity].
+  intros k Hk. unfold callw in Hk. simpl in Hk. assert (k = O) by lia. subst. apply cov_init.
+Qed.
+
+Inductive fstep : list jframe * list fnF * istateF -> list jframe * list fnF * istateF -> Prop :=
+| F_enter_scope : forall fr rest pool st id,
+    fstep (fr :: rest, pool, st)
+          (upd_env fr (id :: jf_env fr) (S (jf_depth fr)) :: rest, pool, add_scopeF id st)
+| F_leave_scope : forall fr rest pool st id t r d,
+    liveF st = mkScopeF id false t :: r -> jf_depth fr = S d -> (jf_call fr = true -> 1 <= d) ->
+    fstep (fr :: rest, pool, st) (upd_env fr (tl (jf_env fr)) d :: rest, pool, remove_scopeF st)
+| F_enter_arg : forall fr rest pool st,
+    fstep (fr :: rest, pool, st) (mkJ (jf_env fr) [] false O :: fr :: rest, pool, enter_argF st)
+| F_leave_arg : forall fr rest pool st,
+    jf_call fr = false -> jf_depth fr = O -> rest <> [] ->
+    fstep (fr :: rest, pool, st) (rest, pool, leave_fnF st)
+| F_create_closure : forall frs pool st,               (* CreateClosureInstr: the closure joins the pool *)
+    fstep (frs, pool, st) (frs, create_closureF st :: pool, st)
+| F_call : forall frs pool st f id tmpl,               (* a closure of the pool; the tested premise *)
+    In f pool -> incl tmpl (corep f) ->
+    fstep (frs, pool, st)
+          (mkJ (id :: corep f) (corep f) true 1 :: frs, pool, add_func_scopeF id tmpl (enter_fnF f st))
+| F_return : forall fr rest pool st,
+    jf_call fr = true -> jf_depth fr = 1%nat -> rest <> [] ->
+    fstep (fr :: rest, pool, st) (rest, pool, leave_fnF (remove_scopeF st))
+| F_tail_call : forall fr rest pool st id tmpl,
+    jf_call fr = true -> incl tmpl (corep (curF st)) ->
+    fstep (fr :: rest, pool, st)
+          (mkJ (id :: jf_base fr) (jf_base fr) true 1 :: rest, pool,
+           add_func_scopeF id tmpl (pop_scopesF (jf_depth fr) st))
+| F_def_set : forall frs pool st,
+    fstep (frs, pool, st) (frs, pool, st).
+
+Lemma pop_scopesF_live : forall k st, liveF (pop_scopesF k st) = skipn k (liveF st).
+Proof.
+  induction k as [|k IH]; intros st; simpl; [reflexivity|]. rewrite IH. simpl.
+  destruct (liveF st); [destruct k; reflexivity|reflexivity].
+Qed.
+Lemma pop_scopesF_saved : forall k st, savedF (pop_scopesF k st) = savedF st.
+Proof. induction k as [|k IH]; intros st; simpl; [reflexivity|]. rewrite IH. reflexivity. Qed.
+
+Theorem invF_preserved : forall frs pool st frs' pool' st',
+  invF frs pool st -> fstep (frs, pool, st) (frs', pool', st') -> invF frs' pool' st'.
+Proof.
+  intros frs pool st frs' pool' st' Hinv Hs. pose proof (invF_cov _ _ _ Hinv) as Hcov.
+  inversion Hs as [fr rest p0 st0 id | fr rest p0 st0 id t r d Hlive Hd Hd1 | fr rest p0 st0 | fr rest p0 st0 Hc Hd Hr
+                  | frs0 p0 st0 | frs0 p0 st0 f id tmpl Hin Ht | fr rest p0 st0 Hc Hd Hr
+                  | fr rest p0 st0 id tmpl Hc Ht | frs0 p0 st0];
+    subst; clear Hs; destruct Hinv as [Hst Hpool]; (split; [|try exact Hpool]).
+  - (* enter scope *)
+    destruct Hst as (C & W & Rest). simpl. split; [|split].
+    + intros k Hk. unfold callw in *. simpl in Hk. destruct k as [|k].
+      * simpl. apply (cov_covLC (add_scopeF id st)). apply cov_add_scope. exact Hcov.
+      * simpl. apply C. lia.
+    + simpl. intros Hc. destruct (W Hc). split; [assumption|lia].
+    + destruct rest; exact Rest.
+  - (* leave scope *)
+    destruct Hst as (C & W & Rest). simpl. rewrite Hlive in *. simpl. split; [|split].
+    + intros k Hk. unfold callw in *. simpl in Hk. specialize (C (S k)). simpl in C. apply C. lia.
+    + simpl. intros Hc. destruct (W Hc). split; [assumption|auto].
+    + rewrite Hd in Rest. simpl in Rest. exact Rest.
+  - (* enter arg *)
+    simpl. split; [|split].
+    + intros k Hk. unfold callw in Hk. simpl in Hk. assert (k = O) by lia. subst k. simpl.
+      apply (cov_covLC (enter_argF st)). apply cov_enter_arg. exact Hcov.
+    + simpl. discriminate.
+    + exact Hst.
+  - (* leave arg *)
+    destruct Hst as (C & W & Rest). destruct frs' as [|fr2 rest]; [congruence|].
+    unfold leave_fnF. destruct (savedF st) as [|c2 sv']; [contradiction|]. simpl.
+    rewrite Hd in Rest. simpl in Rest. exact Rest.
+  - (* create closure *)
+    exact Hst.
+  - constructor; [|exact Hpool]. apply cov_create_closure. exact Hcov.
+  - (* call *)
+    assert (Hw : wf_clos f) by (rewrite Forall_forall in Hpool; apply Hpool; exact Hin).
+    simpl. split; [|split].
+    + intros k Hk. unfold callw in Hk. simpl in Hk. assert (k = O) by lia. subst k. simpl.
+      apply covLC_func_scope; assumption.
+    + simpl. intros _. split; [exact Hw|lia].
+    + destruct frs as [|fr rest]; [contradiction|exact Hst].
+  - (* return *)
+    destruct Hst as (C & W & Rest). destruct frs' as [|fr2 rest]; [congruence|].
+    unfold leave_fnF, remove_scopeF. simpl. destruct (savedF st) as [|c2 sv']; [contradiction|]. simpl.
+    rewrite Hd in Rest. simpl in Rest. destruct (liveF st); exact Rest.
+  - (* tail call *)
+    destruct Hst as (C & W & Rest). destruct (W Hc) as [Hw _]. simpl.
+    rewrite pop_scopesF_live, pop_scopesF_cur, pop_scopesF_saved. split; [|split].
+    + intros k Hk. unfold callw in Hk. simpl in Hk. assert (k = O) by lia. subst k. simpl.
+      apply covLC_func_scope; assumption.
+    + simpl. intros _. split; [exact Hw|lia].
+    + simpl. exact Rest.
+  - exact Hst.
+Qed.
+
+(* every event of the faithful machine is, after erasure, the same event of the core machine *)
+Lemma erase_pop_scopes : forall k st, erase (pop_scopesF k st) = pop_scopes k (erase st).
+Proof. induction k as [|k IH]; intros st; simpl; [reflexivity|]. rewrite IH, erase_remove_scope. reflexivity. Qed.
+
+Theorem fstep_erases : forall frs pool st frs' pool' st',
+  fstep (frs, pool, st) (frs', pool', st') -> jstep (frs, erase st) (frs', erase st').
+Proof.
+  intros frs pool st frs' pool' st' Hs.
+  inversion Hs as [fr rest p0 st0 id | fr rest p0 st0 id t r d Hlive Hd Hd1 | fr rest p0 st0 | fr rest p0 st0 Hc Hd Hr
+                  | frs0 p0 st0 | frs0 p0 st0 f id tmpl Hin Ht | fr rest p0 st0 Hc Hd Hr
+                  | fr rest p0 st0 id tmpl Hc Ht | frs0 p0 st0];
+    subst; clear Hs.
+  - rewrite erase_add_scope. constructor.
+  - rewrite erase_remove_scope. eapply J_leave_scope with (id := id) (r := map eraseS r); [|exact Hd].
+    unfold erase. simpl. rewrite Hlive. reflexivity.
+  - rewrite erase_enter_arg. constructor.
+  - rewrite erase_leave_fn. constructor; assumption.
+  - apply J_def_set.
+  - rewrite erase_add_func_scope, erase_enter_fn. apply J_call. apply pchain_erase.
+  - rewrite erase_leave_fn, erase_remove_scope. constructor; assumption.
+  - rewrite erase_add_func_scope, erase_pop_scopes. constructor. assumption.
+  - apply J_def_set.
+Qed.
+
+Inductive fsteps : list jframe * list fnF * istateF -> list jframe * list fnF * istateF -> Prop :=
+| fs_refl : forall j, fsteps j j
+| fs_step : forall a b c, fstep a b -> fsteps b c -> fsteps a c.
+
+Definition finit : list jframe * list fnF * istateF := ([mkJ [O] [] false O], [], init_istateF).
+
+Theorem invF_reachable : forall frs pool st, fsteps finit (frs, pool, st) -> invF frs pool st.
+Proof.
+  intros frs pool st H.
+  assert (G : forall a b, fsteps a b ->
+            invF (fst (fst a)) (snd (fst a)) (snd a) -> invF (fst (fst b)) (snd (fst b)) (snd b)).
+  { clear. intros a b H. induction H; intros Hi; [exact Hi|]. apply IHfsteps.
+    destruct a as [[fa pa] sa], b as [[fb pb] sb]. simpl in *. eapply invF_preserved; eauto. }
+  specialize (G _ _ H). simpl in G. apply G. apply invF_init.
+Qed.
+
+Theorem fsteps_erase : forall frs pool st, fsteps finit (frs, pool, st) ->
+  jsteps ([mkJ [O] [] false O], init_istate) (frs, erase st).
+Proof.
+  intros frs pool st H.
+  assert (G : forall a b, fsteps a b ->
+            jsteps (fst (fst a), erase (snd a)) (fst (fst b), erase (snd b))).
+  { clear. intros a b H. induction H; [apply js_refl|]. eapply js_step; [|exact IHfsteps].
+    destruct a as [[fa pa] sa], b as [[fb pb] sb]. simpl. eapply fstep_erases; eauto. }
+  specialize (G _ _ H). simpl in G. exact G.
+Qed.
+
+(* in every configuration the faithful machine reaches by these events, the REAL three-stage lookup
+   (live stack to the function boundary; captured stacks of the current function and its parents,
+   pseudo functions and mainfunc included; captured stack of the function scope's template) is lexical
+   lookup on the static chain of the running code *)
+Theorem reachable_lookupF_is_lexical : forall fs fr rest pool st x,
+  fsteps finit (fr :: rest, pool, st) ->
+  impl_lookupF fs st x = lookup_chain fs (jf_env fr) x.
+Proof.
+  intros fs fr rest pool st x H. apply lookup_is_lexical_faithful.
+  - eapply invF_cov. apply invF_reachable. eassumption.
+  - eapply inv_R. apply inv_reachable. apply fsteps_erase in H. exact H.
+Qed.
+
+(* and a closure created there captures that static chain and is callable (joins the pool as wf_clos) *)
+Theorem reachable_closureF_captures : forall fr rest pool st,
+  fsteps finit (fr :: rest, pool, st) ->
+  corep (create_closureF st) = jf_env fr /\ wf_clos (create_closureF st).
+Proof.
+  intros fr rest pool st H. split.
+  - rewrite <- pchain_erase, erase_create_closure. apply closure_captures_static_chain.
+    eapply inv_R. apply inv_reachable. apply fsteps_erase in H. exact H.
+  - apply cov_create_closure. eapply invF_cov. apply invF_reachable. eassumption.
+Qed.
